@@ -698,3 +698,127 @@ Corollary ccp_explicit_validated n s t nodes_list strict_list p :
   route_ok (ngraph n) s t (removelast nodes_list) p = true ->
   Route (ngraph n) s t (removelast nodes_list) p.
 Proof. intros _ H. apply route_ok_spec. exact H. Qed.
+
+(* ------------------------------------------------------------------ route-list clean-up *)
+Definition usable (n : net) (x : Z) : bool := is_roadm n x || is_line n x.
+
+Lemma remove_at_count : forall k (l : list Z) x, nth_error l k = Some x ->
+  forall y, count_occ Z.eq_dec (remove_at k l) y =
+            if Z.eq_dec x y then (count_occ Z.eq_dec l y - 1)%nat else count_occ Z.eq_dec l y.
+Proof.
+  induction k as [|k IH]; intros [|z t] x Hn y; cbn in Hn; try discriminate.
+  - injection Hn as ->. cbn [remove_at count_occ]. destruct (Z.eq_dec x y); lia.
+  - cbn [remove_at count_occ]. rewrite (IH t x Hn y). destruct (Z.eq_dec z y), (Z.eq_dec x y); try lia.
+    subst. assert (H : (count_occ Z.eq_dec t y > 0)%nat).
+    { apply count_occ_In. eapply nth_error_In. exact Hn. } lia.
+Qed.
+
+Lemma remove_at_incl' {A} : forall k (l : list A), incl (remove_at k l) l.
+Proof.
+  induction k as [|k IH]; intros l; destruct l as [|x t]; cbn [remove_at].
+  - intros z Hz. exact Hz.
+  - intros z Hz. right; exact Hz.
+  - intros z Hz. exact Hz.
+  - intros z [<-|Hz]; [left; reflexivity|right; apply IH; exact Hz].
+Qed.
+
+Lemma clean_loop_spec n : forall temp cur_n cur_s out_n out_s,
+  clean_loop n temp cur_n cur_s = Ok (out_n, out_s) ->
+  (forall y, usable n y = false -> count_occ Z.eq_dec cur_n y = count_occ Z.eq_dec (map fst temp) y) ->
+  (forall y, In y out_n -> usable n y = true) /\ incl out_n cur_n.
+Proof.
+  induction temp as [|(x, st) r IH]; intros cur_n cur_s out_n out_s H Hinv; cbn [clean_loop] in H.
+  - injection H as <- <-. split; [|apply incl_refl]. intros y Hy.
+    destruct (usable n y) eqn:E; [reflexivity|]. exfalso. specialize (Hinv y E). cbn in Hinv.
+    apply (count_occ_In Z.eq_dec) in Hy. lia.
+  - assert (Hgood : usable n x = true -> clean_loop n r cur_n cur_s = Ok (out_n, out_s) ->
+                    (forall y, In y out_n -> usable n y = true) /\ incl out_n cur_n).
+    { intros Hu H'. apply (IH _ _ _ _ H'). intros y Hy. rewrite (Hinv y Hy). cbn [map fst count_occ].
+      destruct (Z.eq_dec x y) as [->|]; [congruence|reflexivity]. }
+    assert (Hbad : usable n x = false ->
+                   (if st then Err "ServiceError:strict constraint can not be applied"
+                    else match idx cur_n x with
+                         | Some k => clean_loop n r (remove_at k cur_n) (remove_at k cur_s)
+                         | None => Err "ValueError:list.index" end) = Ok (out_n, out_s) ->
+                   (forall y, In y out_n -> usable n y = true) /\ incl out_n cur_n).
+    { intros Hu H'. destruct st; [discriminate|]. destruct (idx cur_n x) as [k|] eqn:Ek; [|discriminate].
+      apply idx_some in Ek. destruct (IH _ _ _ _ H') as (Hv & Hi).
+      - intros y Hy. rewrite (remove_at_count _ _ _ Ek y). specialize (Hinv y Hy). cbn [map fst count_occ] in Hinv.
+        destruct (Z.eq_dec x y); lia.
+      - split; [exact Hv|]. intros z Hz. eapply remove_at_incl'. apply Hi. exact Hz. }
+    destruct (kind_of n x) as [[| |]|] eqn:Ek.
+    + apply Hbad; [|exact H]. unfold usable, is_roadm, is_line. rewrite Ek. reflexivity.
+    + apply Hgood; [|exact H]. unfold usable, is_roadm. rewrite Ek. reflexivity.
+    + apply Hgood; [|exact H]. unfold usable, is_roadm, is_line. rewrite Ek. reflexivity.
+    + apply Hbad; [|exact H]. unfold usable, is_roadm, is_line. rewrite Ek. reflexivity.
+Qed.
+
+Lemma map_fst_combine : forall (a : list Z) (b : list bool), (length a <= length b)%nat -> map fst (combine a b) = a.
+Proof.
+  induction a as [|x a IH]; intros [|y b] H; cbn in *; try reflexivity; try lia. f_equal. apply IH. lia.
+Qed.
+
+Lemma removelast_length {A} (l : list A) : length (removelast l) = (length l - 1)%nat.
+Proof.
+  induction l as [|x t IH]; [reflexivity|]. destruct t as [|y t']; [reflexivity|].
+  change (removelast (x :: y :: t')) with (x :: removelast (y :: t')). cbn [length] in *. rewrite IH. lia.
+Qed.
+
+Lemma removelast_incl {A} (l : list A) : incl (removelast l) l.
+Proof.
+  induction l as [|x t IH]; [apply incl_refl|]. destruct t as [|y t']; [intros z []|].
+  change (removelast (x :: y :: t')) with (x :: removelast (y :: t')).
+  intros z [<-|Hz]; [left; reflexivity|right; apply IH; exact Hz].
+Qed.
+
+(* the cleaned list only names ROADMs and line elements of the topology, all taken from the user's list;
+   unknown names and transceivers are gone (a STRICT one raises instead) *)
+Theorem clean_route_valid n s t nodes_list strict_list out_n out_s :
+  length nodes_list = length strict_list ->
+  clean_route n s t nodes_list strict_list = Ok (out_n, out_s) ->
+  (forall y, In y out_n -> is_roadm n y = true \/ is_line n y = true) /\ incl out_n nodes_list.
+Proof.
+  intros Hlen H. unfold clean_route in H.
+  destruct (negb (is_trx n s)); [discriminate|]. destruct (negb (is_trx n t)); [discriminate|].
+  set (c1 := match nodes_list with
+             | x :: r => if x =? s then (r, tl strict_list) else (nodes_list, strict_list)
+             | [] => (nodes_list, strict_list) end) in H.
+  assert (H1 : length (fst c1) = length (snd c1) /\ incl (fst c1) nodes_list).
+  { unfold c1. destruct nodes_list as [|x r]; [split; [exact Hlen|apply incl_refl]|].
+    destruct (x =? s); [|split; [exact Hlen|apply incl_refl]]. cbn [fst snd]. split.
+    - destruct strict_list; cbn in *; lia.
+    - intros z Hz. right; exact Hz. }
+  destruct c1 as (n1, s1). cbn [fst snd] in H1. destruct H1 as (Hl1 & Hi1).
+  set (c2 := match n1 with
+             | _ :: _ => if last n1 0 =? t then (removelast n1, removelast s1) else (n1, s1)
+             | [] => (n1, s1) end) in H.
+  assert (H2 : length (fst c2) = length (snd c2) /\ incl (fst c2) n1).
+  { unfold c2. destruct n1 as [|x r]; [split; [exact Hl1|apply incl_refl]|].
+    destruct (last (x :: r) 0 =? t); [|split; [exact Hl1|apply incl_refl]]. cbn [fst snd]. split.
+    - rewrite !removelast_length. lia.
+    - apply removelast_incl. }
+  destruct c2 as (n2, s2). cbn [fst snd] in H2. destruct H2 as (Hl2 & Hi2).
+  destruct (clean_loop_spec n _ _ _ _ _ H) as (Hv & Hi).
+  - intros y _. rewrite map_fst_combine by lia. reflexivity.
+  - split.
+    + intros y Hy. specialize (Hv y Hy). unfold usable in Hv. apply orb_true_iff in Hv. exact Hv.
+    + intros z Hz. apply Hi1, Hi2, Hi. exact Hz.
+Qed.
+
+(* ------------------------------------------------------------------ proposed repair of explicit_path (see Model/Route.v) *)
+(* partial: a validated explicit path is a route of the request; that it is also the shortest one is not proved
+   (it is the only route crossing every listed OMS, which needs the chain structure of an OMS), the oracle checks it *)
+Theorem model_ccp_checked_partial n s t nodes_list strict_list r :
+  model_ccp_checked n s t nodes_list strict_list = Ok r ->
+  match r with
+  | CExplicit p => Route (ngraph n) s t (removelast nodes_list) p
+  | CSearch o => o = model_route (ngraph n) s t (removelast nodes_list) (existsb (fun b => b) (removelast strict_list))
+  end.
+Proof.
+  unfold model_ccp_checked, explicit_path_checked. destruct (negb (last nodes_list (t + 1) =? t)); [discriminate|].
+  destruct (explicit_path n (removelast nodes_list) s t) as [p|].
+  - destruct (route_ok (ngraph n) s t (removelast nodes_list) p) eqn:E.
+    + intros H. injection H as <-. apply route_ok_spec. exact E.
+    + intros H. injection H as <-. reflexivity.
+  - intros H. injection H as <-. reflexivity.
+Qed.
